@@ -37,6 +37,7 @@ def parseEntry (entry : String) (s : Slice) : Option String :=
   else if entry == "looksU" then some (looksStr (looksLike s true))
   else if entry == "aserrT" then some (asErrStr (asTCPErrorPacket s))
   else if entry == "aserrR" then some (asErrStr (asRTUErrorPacket s))
+  else if entry == "aserrRC" then some (asErrStr (asRTUErrorPacketWithCRC s))
   else if entry == "reqT" then some (resStr tcpReqStr (parseTCPRequest s))
   else if entry == "reqR" then some (resStr rtuReqStr (parseRTURequest s))
   else if entry == "reqRC" then some (resStr rtuReqStr (parseRTURequestWithCRC s))
